@@ -96,20 +96,23 @@ func GenTrackerStatus(r *common.Rng) api.TrackerStatus {
 	}
 }
 
+// Clean makes the generator stay inside the well-formed value space (used where one case holds many pins).
+var Clean bool
+
 func genInt(r *common.Rng, name string) int64 {
 	switch name {
 	case "MaxDepth":
-		if r.Chance(1, 25) {
+		if !Clean && r.Chance(1, 25) {
 			return []int64{5, -2, 1 << 31, -(1 << 31) - 1}[r.Intn(4)]
 		}
 		return []int64{-1, -1, 0, 1, 2}[r.Intn(5)]
 	case "ReplicationFactorMin", "ReplicationFactorMax":
-		if r.Chance(1, 25) {
+		if !Clean && r.Chance(1, 25) {
 			return []int64{1 << 31, -(1 << 31) - 1, 1 << 40}[r.Intn(3)]
 		}
 		return []int64{-1, 0, 0, 1, 2, 3, 5, 1<<31 - 1, -(1 << 31)}[r.Intn(9)]
 	case "Mode":
-		if r.Chance(1, 30) {
+		if !Clean && r.Chance(1, 30) {
 			return []int64{2, -1}[r.Intn(2)]
 		}
 		return int64(r.Intn(2))
@@ -125,7 +128,7 @@ func genInt(r *common.Rng, name string) int64 {
 
 func genUint(r *common.Rng, name string, bits int) uint64 {
 	if name == "Type" { // api.PinType
-		if r.Chance(1, 20) {
+		if !Clean && r.Chance(1, 20) {
 			return []uint64{0, uint64(api.AllType), 6, 32, 1 << 40}[r.Intn(5)]
 		}
 		return []uint64{uint64(api.DataType), uint64(api.DataType), uint64(api.MetaType), uint64(api.ClusterDAGType), uint64(api.ShardType), uint64(api.BadType)}[r.Intn(6)]
